@@ -17,7 +17,8 @@
   continuation, any enclosing loop and ANY flag stack, the flat run in front of a chain decomposes
   exactly along the structured meaning of the chain, which is (`chain_true`, `chain_false`,
   `chain_nonbool`, `tail_*`): conditions in order, the block of the first true one, else the final
-  `অথবা` block, else nothing — and `whole_program` says a collection-free run IS that meaning.
+  `অথবা` block, else nothing — and `whole_program` says a collection-free run IS that meaning;
+  `whole_program_any_gc` extends this to runs under any collection schedule (through `C07.gc_invisible`).
   Hypothesis of these theorems: the program is the flattening of a tree (`Structured`), which the
   check establishes per generated program by `unflatten` (see `Spec/Unflatten.lean`).
 -/
@@ -25,6 +26,7 @@ import Pakhi.Lemmas.Control
 import Pakhi.Lemmas.FrameInv
 import Pakhi.Lemmas.Unflatten
 import Pakhi.Lemmas.ParseWF
+import Pakhi.Lemmas.GcInvisible
 
 namespace Pakhi
 namespace C02
@@ -150,5 +152,43 @@ theorem parsed_program_is_its_tree (ctx : PCtx) (pf : Nat) (toks : List Token) (
     (hrun : runLoop prog .never F 0 prog (St.init w) = r) (hr : r ≠ .fuel) : sTop prog F tree em (St.init w) = r :=
   recognised_program_refines prog tree em hu (parse_wf ctx pf toks prog hparse) w F r hrun hr
 
+
+/-- **the structured meaning under any collection schedule**: a terminated run of a recognised program under ANY
+    collection schedule `g` ends like the structured meaning of its tree — same output and world, or the same error -/
+theorem whole_program_any_gc (ctx : PCtx) (pf : Nat) (toks : List Token) (prog : List Stmt) (hparse : parse ctx pf toks = .ok prog)
+    (tree : SList) (em : Meta) (hu : unflatten prog = some (tree, em)) (g : GcMode) (w : World) (F : Nat) (r : Res St)
+    (hrun : runLoop prog g F 0 prog (St.init w) = r) (hr : r ≠ .fuel) :
+    (∃ s s0, r = .ok s ∧ sTop prog F tree em (St.init w) = .ok s0 ∧ s0.out = s.out ∧ s0.world = s.world) ∨
+    (∃ e, r = .err e ∧ sTop prog F tree em (St.init w) = .err e) := by
+  have hwf := parse_wf ctx pf toks prog hparse
+  have hnp : ∀ p, r ≠ .panic p := fun p e => Pakhi.run_never_panics prog hwf g F 0 w p (hrun.trans e)
+  have o := runLoop_rel prog g F 0 0 prog _ _ _ (sRel_init w)
+  rw [hrun] at o
+  cases hr0 : runLoop prog .never F 0 prog (St.init w) with
+  | ok s0 =>
+    have hs := recognised_program_refines prog tree em hu hwf w F _ hr0 (by simp)
+    rw [hr0] at o
+    cases r with
+    | ok s => obtain ⟨ρ, hrel⟩ := o; exact Or.inl ⟨s, s0, rfl, hs, hrel.out, hrel.world⟩
+    | err e => simp [ObsRel] at o
+    | panic p => exact (hnp p rfl).elim
+    | fuel => exact (hr rfl).elim
+  | err e0 =>
+    have hs := recognised_program_refines prog tree em hu hwf w F _ hr0 (by simp)
+    rw [hr0] at o
+    cases r with
+    | ok s => simp [ObsRel] at o
+    | err e => simp only [ObsRel] at o; subst o; exact Or.inr ⟨e0, rfl, hs⟩
+    | panic p => exact (hnp p rfl).elim
+    | fuel => exact (hr rfl).elim
+  | panic p0 =>
+    exact (Pakhi.run_never_panics prog hwf .never F 0 w p0 hr0).elim
+  | fuel =>
+    rw [hr0] at o
+    cases r with
+    | ok s => simp [ObsRel] at o
+    | err e => simp [ObsRel] at o
+    | panic p => exact (hnp p rfl).elim
+    | fuel => exact (hr rfl).elim
 end C02
 end Pakhi
